@@ -250,6 +250,7 @@ type CRLOpts struct {
 	Trusted    []*x509.Certificate
 	URLs       []string
 	Files      []string
+	NoSettle   bool
 }
 
 // Config renders the options as the parsed config struct.
@@ -303,6 +304,12 @@ func NewChecker(o CRLOpts) (*crl.CRLRevocationChecker, error) {
 	}
 	if r.err != nil {
 		return nil, r.err
+	}
+	if !o.NoSettle {
+		// Provision starts a goroutine that runs one refresh right away. Running a tick here
+		// makes that asynchronous first refresh a no-op ("recently finished"), so the start of a
+		// history is deterministic. Checks about the ticker itself (C15) set NoSettle.
+		Call("settle tick", DefaultWatchdog, func() int { c.VerifTick(); return 0 })
 	}
 	return c, nil
 }
